@@ -115,6 +115,7 @@ type Exec struct {
 	stubsHit   map[string]int
 	mapCounter int64
 	nAssertQ   int
+	nRevived   int
 	nAssertConcTrue, nAssertConcFalse int
 	nAssertUnsat int
 	nAssertSat int
@@ -194,6 +195,46 @@ func (ex *Exec) close() {
 	}
 }
 
+// reviveActive replaces the incremental solver of this path after its process has died (cvc5 exits when a query
+// exceeds --tlimit-per): a fresh process gets the path scope and the path condition again. The query that killed it
+// is answered "unknown" by the caller and goes through the fallback chain.
+func (ex *Exec) reviveActive() {
+	old := ex.active
+	if old == nil || !old.dead {
+		return
+	}
+	old.close()
+	ns := newSolver(old.kind, old.timeout)
+	ns.queries, ns.dur, ns.nUnknown = old.queries, old.dur, old.nUnknown
+	ns.push()
+	for _, p := range ex.pc {
+		ns.assert(p)
+	}
+	if old == ex.solver {
+		ex.solver = ns
+	}
+	if old == ex.intSolver {
+		ex.intSolver = ns
+	}
+	ex.active = ns
+	ex.nRevived++
+}
+
+// onActive runs a query on the incremental solver; if the solver process dies the answer is "unknown".
+func (ex *Exec) onActive(f func(s *Solver) string) (res string) {
+	defer func() {
+		if r := recover(); r != nil {
+			if _, ok := r.(solverDied); ok && ex.active != nil && ex.active.dead {
+				ex.reviveActive()
+				res = "unknown"
+				return
+			}
+			panic(r)
+		}
+	}()
+	return f(ex.active)
+}
+
 func (ex *Exec) assertPC(t *Term) {
 	if t.conc {
 		return
@@ -235,7 +276,7 @@ func (ex *Exec) hardPath(goal *Term) bool {
 func (ex *Exec) feasible(t *Term) bool {
 	ex.prepHard(t)
 	ex.collectSyms(t)
-	r := ex.active.checkWith(t)
+	r := ex.onActive(func(s *Solver) string { return s.checkWith(t) })
 	if r == "unknown" {
 		r, _ = ex.fallbackQuery(t, nil)
 	}
